@@ -258,8 +258,39 @@ func runC07(t *testing.T, r *kit.Run) {
 			model = append(model, versionless(o.ObjectID()))
 		}
 	}
+	// 1 PBF history in 6 has a damaged block: the scan must stop there with an error, and that error,
+	// recorded earlier, must still be what Err reports after the stop
+	damaged := ""
+	if !c.xml && len(blocks) > 6 && tp.Chance(1, 6) {
+		dm := damages()
+		var usable []damage
+		for _, d := range dm {
+			if !d.header && d.name != "zlib-truncated-in-trailer" {
+				usable = append(usable, d)
+			}
+		}
+		d := usable[tp.Draw(len(usable))]
+		at := 1 + tp.Draw(len(blocks)/3)
+		b := blocks[at]
+		nd := append([]byte(nil), data[:b.Offset]...)
+		nd = append(nd, d.block()...)
+		nd = append(nd, data[b.End:]...)
+		data = nd
+		model = nil
+		for _, pb := range blocks[:at] {
+			for _, o := range pb.Objs {
+				model = append(model, versionless(o.ObjectID()))
+			}
+		}
+		damaged = d.name
+		if c.mode == 2 {
+			c.mode = tp.Draw(2)
+		}
+	}
 	total := len(model)
-	if tp.Chance(3, 4) {
+	if damaged != "" {
+		c.k = total + 2 // run into the error, then stop
+	} else if tp.Chance(3, 4) {
 		c.k = tp.Draw(total/3 + 1)
 	} else {
 		c.k = tp.Draw(total + 3)
@@ -315,6 +346,11 @@ func runC07(t *testing.T, r *kit.Run) {
 				allowance += blocks[i+1].End - blocks[i+1].Offset
 			}
 		}
+	}
+	if damaged != "" {
+		allowance = len(data) // promptness is not judged on a stream that already failed
+		r.Out.Fault("damaged-block:" + damaged)
+		desc += "; block damaged: " + damaged
 	}
 	remaining := len(data) - posAtStop
 	inFlight := posAtStop > 0 && remaining > 0 && res.stopInvoked > 0
@@ -381,6 +417,7 @@ func runC07(t *testing.T, r *kit.Run) {
 	// 1. sequential scanner model over the history
 	j := 0
 	sawFalse := false
+	errorBeforeStop := false // the damaged block ended the scan before anything stopped it
 	for _, cl := range res.calls {
 		if cl.name != "Scan" {
 			continue
@@ -408,6 +445,9 @@ func runC07(t *testing.T, r *kit.Run) {
 		} else {
 			sawFalse = true
 			stopped := res.stopInvoked > 0 && cl.t1 > res.stopInvoked
+			if damaged != "" && j == total && !stopped {
+				errorBeforeStop = true
+			}
 			if j < total && !stopped {
 				r.Out.Violate(cls+"/scan-false-before-end-without-stop", "%s: Scan returned false after %d of %d objects although nothing had stopped it yet", desc, j, total)
 				return
@@ -429,6 +469,14 @@ func runC07(t *testing.T, r *kit.Run) {
 			closedBefore = true
 		}
 		cancelled := res.cancelCalled
+		if errorBeforeStop {
+			r.Out.Probe("error-recorded-before-the-stop")
+			if cl.err == nil || cl.err == osm.ErrScannerClosed || cl.err == context.Canceled {
+				r.Out.Violate(cls+"/earlier-error-lost-after-stop", "%s: the scan had ended with an error at the damaged block before the stop; afterwards Err() = %v", desc, cl.err)
+				return
+			}
+			continue
+		}
 		switch {
 		case cl.err == nil:
 			if !(delivered >= total && sawFalse) {
